@@ -145,7 +145,7 @@ type node struct {
 func classifiedLeaves(desc string) string {
 	var o []string
 	d := strings.ReplaceAll(desc, "TokenValidationError", "TokenVE")
-	for _, n := range []string{"context.Canceled", "context.DeadlineExceeded", "TimeoutError", "ErrInvalidConfig", "ValidationError", "ErrPermissionDenied", "ErrBucketNotFound"} {
+	for _, n := range []string{"context.Canceled", "context.DeadlineExceeded", "TimeoutError", "ErrInvalidConfig", "ValidationError", "ErrPermissionDenied", "ErrBucketNotFound", "APIError(10071,wrong last sequence)", "nats.ErrKeyExists", "Create-conflict"} {
 		if strings.Contains(d, n) {
 			o = append(o, n)
 		}
@@ -273,6 +273,20 @@ func genLeaf(r *rand.Rand) node {
 			k[kSoft] = true
 		}
 		return node{e, fmt.Sprintf("APIError(%d,%q)", e.ErrorCode, d), k}
+	case 10:
+		// what the client returns for a revision conflict / a create on an existing key:
+		// API error 10071 with the server's description, the ErrKeyExists sentinel, and
+		// Create's own wrapping of it (documented permanent: a deposed leader must not retry)
+		switch r.IntN(3) {
+		case 0:
+			e := &nats.APIError{Code: 400, ErrorCode: nats.JSErrCodeStreamWrongLastSequence, Description: fmt.Sprintf("wrong last sequence: %d", r.IntN(1000))}
+			return node{e, "APIError(10071,wrong last sequence)", map[kind]bool{kPermanent: true}}
+		case 1:
+			return node{nats.ErrKeyExists, "nats.ErrKeyExists", map[kind]bool{kPermanent: true}}
+		default:
+			e := fmt.Errorf("%w: %s", &nats.APIError{Code: 400, ErrorCode: nats.JSErrCodeStreamWrongLastSequence, Description: fmt.Sprintf("wrong last sequence: %d", r.IntN(1000))}, "key exists")
+			return node{e, "Create-conflict(wrong last sequence: key exists)", map[kind]bool{kPermanent: true}}
+		}
 	default:
 		s, soft := anyText(r)
 		k := map[kind]bool{}
